@@ -71,8 +71,10 @@ def main():
     result['analysis_broken'] = [d for d in detected if d.get('exit2')]
     dst = os.path.join(VERIF, 'seeded', name)
     os.makedirs(dst, exist_ok=True)
-    shutil.copy(patch, os.path.join(dst, 'patch.diff'))
-    shutil.copy(demo, os.path.join(dst, 'demo.cxx'))
+    if os.path.realpath(src) != os.path.realpath(dst):
+        shutil.copy(patch, os.path.join(dst, 'patch.diff'))
+        shutil.copy(demo, os.path.join(dst, 'demo.cxx'))
+        shutil.copy(os.path.join(src, 'README.txt'), os.path.join(dst, 'README.txt'))
     readme = open(os.path.join(src, 'README.txt')).read()
     meta = {'breaks_property': pid, 'written_by': 'independent sub-agent given only the property text and a scratch worktree',
             'what_it_needs_to_manifest': readme.strip(),
